@@ -62,6 +62,9 @@ func c11Check(r *core.Run, m map[string]string, order []string, repeats int) {
 		within = false
 	}
 	shape := fmt.Sprintf("n=%d", len(m))
+	if len(m) > 1000 {
+		shape = "n>1000" // one class: the parser's pair-count limit (data.MAX_MAPPING_PAIRS) that the encoders do not share
+	}
 	cs := c11Case(m, keys)
 	build := func() (*data.Mapping, error) {
 		if order == nil {
@@ -269,6 +272,33 @@ func runC11(r *core.Run) {
 		sort.Sort(sort.Reverse(sort.StringSlice(keys)))
 		c11Check(r, m, keys, 1)
 	})
+	c11Derived(r)
+	// pair-count family: many small pairs (far below 65,535 bytes), with the greatest key's pair of ordinary
+	// length and as the shortest possible pair (one-byte key, empty value: the parser's short-tail path)
+	var countCases []map[string]string
+	for _, n := range []int{256, 998, 999, 1000, 1001, 1002, 1500, 4000} {
+		for _, shortLast := range []bool{false, true} {
+			m := map[string]string{}
+			for i := 0; i < n; i++ {
+				m[fmt.Sprintf("k%05d", i)] = "v"
+			}
+			if shortLast {
+				delete(m, fmt.Sprintf("k%05d", n-1))
+				m["z"] = ""
+			}
+			countCases = append(countCases, m)
+		}
+	}
+	core.ParallelFor(len(countCases), func(_, i int) {
+		m := countCases[i]
+		c11Check(r, m, nil, 1)
+		keys := make([]string, 0, len(m))
+		for k := range m {
+			keys = append(keys, k)
+		}
+		sort.Sort(sort.Reverse(sort.StringSlice(keys)))
+		c11Check(r, m, keys, 1)
+	})
 	for _, kl := range []int{254, 255, 256, 300} {
 		for _, vl := range []int{0, 254, 255, 256} {
 			m := map[string]string{strings.Repeat("k", kl): strings.Repeat("v", vl)}
@@ -305,6 +335,10 @@ func runC11(r *core.Run) {
 }
 
 func replayC11(r *core.Run, c core.Case) {
+	if c.Kind == "derived" {
+		c11Derived(r)
+		return
+	}
 	if c.Kind == "map" {
 		m, order := c11Parse(c.Args["pairs"])
 		c11Check(r, m, nil, 8)
